@@ -170,6 +170,13 @@ Proof.
   unfold Bavg2_closed, aff2, mvmul, dot, nodepos. shape_unfold. list_eq ltac:(field; auto).
 Qed.
 
+Lemma count_nonzero_nil : count_nonzero (@nil R) = 0%nat.
+Proof. reflexivity. Qed.
+Lemma count_nonzero_z (l : list R) : count_nonzero (0 :: l) = count_nonzero l.
+Proof. unfold count_nonzero. cbn [filter]. rewrite is0_zero. reflexivity. Qed.
+Lemma count_nonzero_nz (v : R) (l : list R) : v <> 0 -> count_nonzero (v :: l) = S (count_nonzero l).
+Proof. intros Hv. unfold count_nonzero. cbn [filter]. rewrite (is0_nz v Hv). reflexivity. Qed.
+
 (* closed form of the averaged B matrix, 3-D (Voigt order yz, zx, xy):  a = 1/(4 hx), b = 1/(4 hy), c = 1/(4 hz) *)
 Definition Bavg3_closed (a b c : R) : list (list R) :=
   [[-a; 0; 0; a; 0; 0; -a; 0; 0; a; 0; 0; -a; 0; 0; a; 0; 0; -a; 0; 0; a; 0; 0];
@@ -199,9 +206,9 @@ Proof.
   assert (Ha' : - a <> 0) by (apply Ropp_neq_0_compat; assumption).
   assert (Hb' : - b <> 0) by (apply Ropp_neq_0_compat; assumption).
   assert (Hc' : - c <> 0) by (apply Ropp_neq_0_compat; assumption).
-  unfold voigt_scale, count_nonzero; cbn [map filter].
-  rewrite ?is0_zero, ?(is0_nz a), ?(is0_nz (- a)), ?(is0_nz b), ?(is0_nz (- b)), ?(is0_nz c), ?(is0_nz (- c)) by assumption.
-  cbn [negb length Nat.eqb Nat.mul Nat.pow Nat.add]. reflexivity.
+  unfold voigt_scale; cbn [map].
+  repeat (rewrite count_nonzero_z || rewrite count_nonzero_nz by assumption). rewrite !count_nonzero_nil.
+  cbn [Nat.eqb Nat.mul Nat.pow Nat.add]. unfold two, nadd, nmul, none_; cbn [NumR]. reflexivity.
 Qed.
 
 (* u(x) = G x + c0 on one 3-D element *)
